@@ -24,6 +24,10 @@ CLAIMED = {
    text="Coq theorems for well-formed p-boxes of the configured length: Pbox.env / imp return the pointwise min/max bounds, imp raises exactly when the meet is empty (and cannot be empty when a common member exists); env is the least upper bound and imp the greatest lower bound of the containment order; both are commutative, associative, idempotent; folding env over a family is independent of the order of listing; the support-based `in` test is monotone. Tie: bit-exact in-Coq differential run of the fold over 1..5 converted operands of mixed kinds + exact pointwise oracle on envelope()/imposition(), all orders of listing, idempotence, interval hull, `in`.",
    note="Trusted: kernel, Reals axioms, hand model of env/imp/Staircase validated by the differential run; conversion of non-p-box operands is the library's own (C07-C09).",
    technique="Coq lattice proofs over the env/imp model + in-Coq differential run + pointwise oracle", ref="5/C11"),
+ "C18": dict(
+   text="Coq theorems for every well-formed p-box on the configured grid (length and strict monotonicity of the grid proved for the constants translated from params.py): alpha_cut(a) is the focal interval at the first grid level of minimal distance to a, a grid level is its own nearest level, alpha-cuts are monotone in the level, cdf and alpha-cut are inverse within one grid step (the cut at the reported probability is a bound value nearest to x), native discretisation returns the focal intervals, every outer interval contains all alpha-cuts of its band, widest PI contains narrowest and is monotone in coverage; narrowest monotone where it exists (PARTIAL: fallback breaks it - known finding O24). Tie: bit-exact in-Coq run of 7 query kinds on p-boxes of every kind + independent nearest-level oracle.",
+   note="Partial: condensation-contains-original is oracle-only; narrowest-PI monotonicity proved only without the fallback (O24 open), cdf raising on flat runs is O25 (open). Trusted: kernel, Reals axioms, hand model validated by the differential run, translate_params.py, linspace model.",
+   technique="Coq proofs about first-argmin lookup on a strictly increasing grid + in-Coq differential run + independent oracle", ref="5/C18"),
 }
 NA_REASON = "no check registered yet in this revision of the framework (work in progress, see DESIGN.md section 9)"
 base = json.load(open("/root/.vp/BASELINE.json"))
